@@ -64,11 +64,13 @@ func (w *Worker) Mine(ctx context.Context, data []byte, targetScore uint64) (uin
 	go func() {
 		select {
 		case <-ctx.Done():
+			simYield("watcher.cancelled", simWatcher)
 			atomic.StoreUint32(&done, 1)
 		case <-closing:
 			return
 		}
 	}()
+	simYield("mine.spawned", simCaller)
 
 	sufficientTrailing := sufficientTrailingZeros(data, targetScore)
 	target := targetHash(data, targetScore)
@@ -76,21 +78,31 @@ func (w *Worker) Mine(ctx context.Context, data []byte, targetScore uint64) (uin
 	workerWidth := math.MaxUint64 / uint64(w.numWorkers)
 	for i := 0; i < w.numWorkers; i++ {
 		startNonce := uint64(i) * workerWidth
+		wid := simWorker + i
 		wg.Add(1)
 		go func() {
 			defer wg.Done()
+			defer simYield("worker.exit", wid)
+			simYield("worker.start", wid)
 
 			nonce, workerErr := w.worker(powDigest[:], startNonce, sufficientTrailing, target, &done, &counter)
 			if workerErr != nil {
 				return
 			}
+			simYield("worker.found", wid)
 			atomic.StoreUint32(&done, 1)
+			simYield("worker.send", wid)
 			results <- nonce
 		}()
+		simYield("mine.spawned", simCaller)
 	}
+	simYield("mine.wait", simCaller)
 	wg.Wait()
+	simYield("mine.joined", simCaller)
 	close(results)
+	simYield("mine.closedResults", simCaller)
 	close(closing)
+	simYield("mine.closedClosing", simCaller)
 
 	nonce, ok := <-results
 	if !ok {
@@ -150,6 +162,7 @@ func (w *Worker) worker(powDigest []byte, startNonce uint64, sufficientTrailing 
 
 	digestTritsLen := b1t6.EncodedLen(len(powDigest))
 	for nonce := startNonce; atomic.LoadUint32(done) == 0; nonce += bct.MaxBatchSize {
+		simYield("worker.batch", simWorkerID(w, startNonce))
 		// add the nonce to each trit buffer
 		for i := range buf {
 			nonceBuf := buf[i][digestTritsLen:]
@@ -162,6 +175,7 @@ func (w *Worker) worker(powDigest []byte, startNonce uint64, sufficientTrailing 
 			return 0, err
 		}
 		c.CopyState(l[:], h[:]) // the first 243 entries of the state correspond to the resulting hashes
+		simState(&l, &h, nonce)
 		atomic.AddUint64(counter, bct.MaxBatchSize)
 
 		// check the state whether it corresponds to a hash with sufficient amount of trailing zeros
